@@ -47,7 +47,7 @@ def main(argv=None):
         from . import schedrunner as engine
         engine_name = "schedsim"
     t0 = time.time()
-    res = drive(engine, args.property, seed, runs, args.workers, args.keep_going or args.digest_only)
+    res = drive(engine, args.property, seed, runs, args.workers, args.keep_going or args.digest_only, args.tier)
     wall = time.time() - t0
     from . import report
     code = report.finish(engine_name, args.property, args.tier, seed, runs, res, wall,
@@ -57,7 +57,7 @@ def main(argv=None):
     sys.exit(code)
 
 
-def drive(engine, prop, seed, runs, workers, keep_going):
+def drive(engine, prop, seed, runs, workers, keep_going, tier="quick"):
     batch = getattr(engine, "BATCH", 8)
     sample_every = max(1, runs // 3)
     ctx = multiprocessing.get_context("fork")
@@ -67,7 +67,7 @@ def drive(engine, prop, seed, runs, workers, keep_going):
     from . import procs
     ev = ctx.Event()
     with cf.ProcessPoolExecutor(max_workers=workers, mp_context=ctx, initializer=procs.init_pool,
-                                initargs=(ev, keep_going)) as pool:
+                                initargs=(ev, keep_going, tier)) as pool:
         it = iter(range(0, runs, batch))
         pending = set()
 
